@@ -33,6 +33,11 @@ func (tc *TaskCompiler) CompileTask(t *task.Task, executionContext *ExecutionCon
 			continue
 		}
 
+		// outputs of earlier tasks are data, not templates: text such as "{{" in them must not be interpreted
+		if strings.HasPrefix(k, "Tasks.") && strings.HasSuffix(k, ".Output") {
+			continue
+		}
+
 		v, err := utils.RenderString(v.(string), vars.Map())
 		if err != nil {
 			return nil, err
